@@ -1,5 +1,6 @@
 import SwcVerif.Model.Py
 import SwcVerif.Model.PyImgIo
+import SwcVerif.Model.PyViews
 /-! Semantics added for the rest of the image I/O code (`harness/algo_specs/18c_imgio2.py`, Gen/AlgoImgIo2.lean): `np.stack(frames, axis=0)`,
 the subscripts `a[:, :, :, :]` / `a[:, :, :, 0]` (full slices followed by int literals), the record of one `TiffWriter.write` call, and the
 (trusted, executed against the real codec by the suite) shape of the series a contiguous sequence of such writes makes.  Mathlib-free. -/
@@ -28,6 +29,30 @@ def sliceThenInts (a : NdArr K) (nfull : Nat) (ks : List Nat) : Option (NdArr K)
 /-- `a[..., k₁, …, kₘ]`: the int literals index the LAST axes (IndexError: fewer axes, or a literal outside its axis) -/
 def ellipsisThenInts (a : NdArr K) (ks : List Nat) : Option (NdArr K) :=
   if ks.length ≤ a.shape.length then sliceThenInts a (a.shape.length - ks.length) ks else none
+
+/-! ### `a.__getitem__(key)` for the other key forms of `ImageStack.__getitem__`: fewer ints than axes, slices -/
+
+/-- `a[k₀, …, kₘ]` with at most as many ints as axes (negative = from the end): the sub-array at that prefix (as many ints as axes: the element,
+a 0-d array); IndexError: too many indices or an index outside its axis -/
+def ndIndexPrefix (a : NdArr K) (ks : List Int) : Option (NdArr K) :=
+  if ks.length ≤ a.shape.length then
+    ((List.zipWith ndNormIdx a.shape ks).mapM id).map fun idx =>
+      { a with shape := a.shape.drop ks.length, get := fun i => a.get (idx ++ i) }
+  else none
+
+/-- `slice.indices(n)` (`Py.sliceIndices` of Model/PyViews.lean) as (first index, step, number of indices `len(range(start, stop, step))`);
+`step = 0` is a ValueError -/
+def sliceSpan (n : Nat) (s : Slice) : Option (Int × Int × Nat) :=
+  (sliceIndices s n).map fun p => (p.1, p.2.2, rangeLen p.1 p.2.1 p.2.2)
+
+/-- `a[s₀, …, sₘ]` with at most as many slices as axes: axis `k` keeps the indices `startₖ + j·stepₖ`; further axes are kept whole
+(IndexError: too many indices; ValueError: a zero step) -/
+def ndSlice (a : NdArr K) (ss : List Slice) : Option (NdArr K) :=
+  if ss.length ≤ a.shape.length then
+    ((List.zipWith sliceSpan a.shape ss).mapM id).map fun sp =>
+      { a with shape := sp.map (·.2.2) ++ a.shape.drop ss.length,
+               get := fun i => a.get (List.zipWith (fun (p : Int × Int × Nat) (j : Nat) => (p.1 + p.2.1 * j).toNat) sp i ++ i.drop ss.length) }
+  else none
 
 /-- one call `tif.write(frame, contiguous=…, photometric=…, resolution=…, metadata={…, "axes": …})` of a `tifffile.TiffWriter`: what the image
 I/O property depends on -/
